@@ -193,9 +193,12 @@ Definition extract (f : str) (linelen start : nat) (q : qkind) : res str :=
   end.
 
 (* ------------------------------------------------------------------ sugar._io.fasta.iter_fasta on the extracted text, [0] *)
-(* str.strip() / \s on Latin-1 code points *)
+(* str.strip() / \s.  The text the reader sees is the UTF-8 decoding of the bytes (FastaIndex._search decodes latin1,
+   BioBasket.fromfmtstr encodes latin1 again, read() decodes UTF-8; sugar.read of the file decodes UTF-8 too), so a byte
+   >= 0x80 is never white space by itself; multi-byte white space (NBSP, NEL, U+2000.. ) is excluded from the domain by
+   [desc_text_ok]. *)
 Definition is_ws_str (c : byte) : bool :=
-  match c with " " | x09 | x0a | x0b | x0c | x0d | x1c | x1d | x1e | x1f | x85 | xa0 => true | _ => false end%byte.
+  match c with " " | x09 | x0a | x0b | x0c | x0d | x1c | x1d | x1e | x1f => true | _ => false end%byte.
 Fixpoint lstrip_ws (s : str) : str :=
   match s with [] => [] | c :: r => if is_ws_str c then lstrip_ws r else s end.
 Definition strip_ws (s : str) : str := rev (lstrip_ws (rev (lstrip_ws s))).
@@ -352,7 +355,7 @@ Definition is_colon (c : byte) : bool := byte_eqb c ":"%byte.
 Definition id_char (c : byte) : bool :=
   printable c && negb (byte_eqb c GT || byte_eqb c ","%byte || byte_eqb c "|"%byte || byte_eqb c SEMI || is_colon c).
 Definition desc_char (c : byte) : bool :=
-  (printable c || byte_eqb c " "%byte || byte_eqb c x09) && negb (byte_eqb c GT).
+  (printable c || byte_eqb c " "%byte || byte_eqb c x09 || N.leb 128 (Byte.to_N c)) && negb (byte_eqb c GT).
 Definition res_char (c : byte) : bool := printable c && negb (byte_eqb c GT || byte_eqb c SEMI).
 Definition wf_id (s : str) : bool := negb (match s with [] => true | _ => false end) && forallb id_char s.
 Definition wf_desc (s : str) : bool :=
@@ -369,11 +372,47 @@ Definition wf_rec (mode : N) (nllen : nat) (r : arec) : bool :=
       then negb (str_eqb (rid r) HEADER_KEY)                                   (* F16 *)
            && ((length (rseq r) <=? rw r) || N.ltb (N.of_nat (rw r + nllen)) 65536)        (* F15 *)
       else true).
+(* header descriptions may hold non-ASCII text as UTF-8 bytes.  Well-formed UTF-8 (CPython's strict decoder: no overlong
+   forms, no surrogates, <= U+10FFFF), and none of the multi-byte white-space characters str.strip()/\s would remove
+   (conservatively: no C2 85, C2 A0, E1 9A .., E2 80 .., E2 81 .., E3 80 ..). *)
+Definition in_rng (c : byte) (lo hi : N) : bool := let n := Byte.to_N c in (N.leb lo n && N.leb n hi)%bool.
+Definition cont (c : byte) : bool := in_rng c 128 191.
+Fixpoint utf8_valid (s : str) : bool :=
+  match s with
+  | [] => true
+  | b :: r =>
+      let n := Byte.to_N b in
+      if N.ltb n 128 then utf8_valid r
+      else if in_rng b 194 223 then match r with c1 :: r1 => cont c1 && utf8_valid r1 | _ => false end
+      else if N.eqb n 224 then match r with c1 :: c2 :: r2 => in_rng c1 160 191 && cont c2 && utf8_valid r2 | _ => false end
+      else if N.eqb n 237 then match r with c1 :: c2 :: r2 => in_rng c1 128 159 && cont c2 && utf8_valid r2 | _ => false end
+      else if in_rng b 225 239 then match r with c1 :: c2 :: r2 => cont c1 && cont c2 && utf8_valid r2 | _ => false end
+      else if N.eqb n 240 then match r with c1 :: c2 :: c3 :: r3 => in_rng c1 144 191 && cont c2 && cont c3 && utf8_valid r3 | _ => false end
+      else if in_rng b 241 243 then match r with c1 :: c2 :: c3 :: r3 => cont c1 && cont c2 && cont c3 && utf8_valid r3 | _ => false end
+      else if N.eqb n 244 then match r with c1 :: c2 :: c3 :: r3 => in_rng c1 128 143 && cont c2 && cont c3 && utf8_valid r3 | _ => false end
+      else false
+  end.
+Fixpoint no_uni_ws (s : str) : bool :=
+  match s with
+  | [] => true
+  | b :: r =>
+      let n := Byte.to_N b in
+      negb (match r with
+            | c1 :: _ => (N.eqb n 194 && (N.eqb (Byte.to_N c1) 133 || N.eqb (Byte.to_N c1) 160))
+                         || (N.eqb n 225 && N.eqb (Byte.to_N c1) 154)
+                         || (N.eqb n 226 && (N.eqb (Byte.to_N c1) 128 || N.eqb (Byte.to_N c1) 129))
+                         || (N.eqb n 227 && N.eqb (Byte.to_N c1) 128)
+            | [] => false
+            end)
+      && no_uni_ws r
+  end.
+Definition desc_text_ok (s : str) : bool := utf8_valid s && no_uni_ws s.
 Definition wf_file (mode : N) (f : finput) : bool :=
   match f with
   | FRaw _ => false
   | FAbs crlf final rs =>
       negb (match rs with [] => true | _ => false end) && forallb (wf_rec mode (length (nl_of crlf))) rs
+      && forallb (fun r => desc_text_ok (rdesc r)) rs
   end.
 Definition ids_of (f : finput) : list str := match f with FRaw _ => [] | FAbs _ _ rs => map rid rs end.
 Fixpoint nodup_str (l : list str) : bool :=
@@ -450,7 +489,9 @@ Definition no_byte (c : byte) (s : str) : bool := forallb (fun x => negb (byte_e
 Definition wf_name (s : str) : bool := no_byte COMMA s && no_byte LF s && str_eqb (strip_ws s) s.
 Definition wf_header (mode : N) (headerstart path : str) (files : list str) : bool :=
   N.ltb mode 2 && wf_name path && forallb wf_name files
-  && match rev headerstart with x :: r => byte_eqb x LF && no_byte LF r | [] => false end.
+  && match rev headerstart with x :: r => byte_eqb x LF && no_byte LF r | [] => false end
+  (* the stored header is decoded as latin1, where 0x85 / 0xa0 would be white space for str.strip: names are ASCII here *)
+  && forallb (forallb (fun c => N.ltb (Byte.to_N c) 128)) (path :: files).
 Definition run_C09_header (mode : N) (headerstart path : str) (files : list str) : val :=
   let st := stored_header mode headerstart path files in
   VL [VB (wf_header mode headerstart path files); VS st;
